@@ -6,7 +6,7 @@ CONSTS = ["nameWindow"]
 THEOREMS = {"SmVerif.Props.C17": ["SmVerif.C17." + t for t in (
     "c17_cache_correct", "c17_lookup_index", "c17_resolve_eq_spec", "c17_resolve_new_eq_spec", "c17_textAt_suffix",
     "c17_identifier_chars", "c17_identifier_text", "c17_not_identifier_none", "c17_safe", "c17_safe_new",
-    "c17_underflow_unsorted", "c17_inside_pair_cache_visible")]}
+    "c17_underflow_unsorted", "c17_inside_pair_cache_visible", "c17_window")]}
 TRUSTED = BASE_TRUST + [
     "model: lean/SmVerif/Model/NameRes.lean mirrors RevTokenIter::next, SourceView::get_original_function_name (sourceview.rs), js_identifiers.rs and SourceMap::get_original_function_name (types.rs); "
     "parametric in unicode_id_start::is_id_start_unicode / is_id_continue_unicode / char::is_whitespace (theorems hold for all predicates; every case line carries the values for its non-ASCII characters and the harness cross-checks each of them against the crate)",
